@@ -277,7 +277,9 @@ class ListOf(Ty):
         def elem(interp2, idx_term, uid=uid):
             return make_indexed(interp2, elem_ty, uid, idx_term)
 
-        return SList(n, elem, uid)
+        xs = SList(n, elem, uid)
+        xs.elem_ty = elem_ty
+        return xs
 
     def concrete(self, cx, name):
         n = cx.get(cx.fresh_name(name + '.len'), self.min_len, None)
@@ -690,6 +692,17 @@ class Registry:
                 return c
         return None
 
+    def args_fit_contract(self, interp, c, func, args, kwargs):
+        from . import verify
+        try:
+            bound = verify.bind_call_args(func, args, kwargs)
+        except Unsupported:
+            return False
+        for name, ty in c.params.items():
+            if name in bound and not _fits(ty, bound[name]):
+                return False
+        return True
+
     def model_for(self, f):
         try:
             m = self.models.get(f)
@@ -815,6 +828,46 @@ def _returns_a_value(f):
     return False
 
 
+def _fits(ty, v):
+    """Could the value have been produced by the shape?  (conservative for shapes that cannot be inspected)"""
+    if isinstance(v, SChoice):
+        return all(_fits(ty, a) for a in v.alts)
+    if isinstance(ty, Opt):
+        if v is None:
+            return True
+        if isinstance(v, SOpt):
+            return _fits(ty.inner, v.val)
+        return _fits(ty.inner, v)
+    if isinstance(v, SOpt):
+        return False
+    if isinstance(ty, Iface):
+        iface = ty.iface() if isinstance(ty.iface, types.FunctionType) else ty.iface
+        return isinstance(v, Opaque) and isinstance(v._pv_iface, type) and issubclass(v._pv_iface, iface)
+    if isinstance(ty, Inst):
+        if isinstance(v, (Opaque, Sym)) or not isinstance(v, ty.cls):
+            return False
+        d = getattr(v, '__dict__', {})
+        return all(_fits(t, d[k]) for k, t in ty.fields.items() if isinstance(t, Ty) and k in d)
+    if isinstance(ty, _Int):
+        return isinstance(v, (SInt, int)) and not isinstance(v, bool)
+    if isinstance(ty, _Bool):
+        return isinstance(v, (SBool, bool))
+    if isinstance(ty, _Str):
+        return isinstance(v, (SStr, str))
+    if isinstance(ty, ListOf):
+        if isinstance(v, (list, tuple)):
+            return all(_fits(ty.elem, x) for x in v)
+        if isinstance(v, SList):
+            et = getattr(v, 'elem_ty', None)
+            if isinstance(et, Iface) and isinstance(ty.elem, Iface):
+                a = et.iface() if isinstance(et.iface, types.FunctionType) else et.iface
+                b = ty.elem.iface() if isinstance(ty.elem.iface, types.FunctionType) else ty.elem.iface
+                return isinstance(a, type) and issubclass(a, b)
+            return True
+        return False
+    return True
+
+
 class OpaqueMethod:
     def __init__(self, o, name, m):
         self.o = o
@@ -937,6 +990,10 @@ class Module:
         self.loops = []
         self.models = {}
         self.checks = []       # extra obligation generators: (name, fn(ctx))
+        # contracts of OTHER sidecar modules at call sites of this module's functions:
+        #   'apply' (default) use them; 'fit' only when the arguments have the shapes the contract is stated
+        #   for, otherwise the real body is interpreted; 'ignore' never (always interpret the body)
+        self.foreign_contracts = 'apply'
         self.bounded_checks = []   # bounded stand-ins: (name, fn(ctx)) -- never counted as proved
         self.transparent = []
         self.assumptions = []
